@@ -146,6 +146,38 @@ def _real_last(chk):
     chk.require(n >= 1, "no cross-set _inverse_transform_algorithm found")
 
 
+def _augment_keeps_mean(chk):
+    """MIRROR.affine.augment - the only place where the mean of the data is removed is the Scaler (under `with_center`),
+    which also adds it back.  The Hilbert augmentation may remove the mean that padding introduces into the IMAGINARY
+    part, but an offset of the whole complex signal includes the mean of the real part - of the data themselves - which
+    nothing adds back: with center=False the reconstruction lacks the temporal mean of every feature."""
+    pm = chk.pm
+    mod = pm.modules.get("xeofs.utils.hilbert_transform")
+    chk.require(mod is not None, "xeofs/utils/hilbert_transform.py vanished")
+    n = 0
+    for fn in mod.functions.values():
+        ff = FuncFacts.of(fn)
+        for b in [x for x in walk_no_nested(fn.node) if isinstance(x, ast.BinOp) and isinstance(x.op, ast.Sub)]:
+            rp = ff.paths(b.right, spine_only=True)
+            red = [p for p in rp if any(o.kind in ("method", "arg") and o.name.split(".")[-1] in ("mean", "nanmean", "average") for o in p.ops)]
+            if not red:
+                continue
+            lsrc = {(p.atom.kind, p.atom.name) for p in ff.paths(b.left, spine_only=True)}
+            same = any((p.atom.kind, p.atom.name) in lsrc for p in red)
+            if not same:
+                continue
+            # is the result handed on as the signal (returned)?
+            returned = any(any(o.node is b for o in p.ops) or (p.atom.node is b if hasattr(p.atom, "node") else False) for r in returns_of(fn) for p in ff.paths(r.value, spine_only=True))
+            if not returned:
+                continue
+            n += 1
+            imag_only = all(any(o.kind == "attr" and o.name == "imag" for o in p.ops[: [i for i, o in enumerate(p.ops) if o.name.split(".")[-1] in ("mean", "nanmean", "average")][0]]) for p in red)
+            chk.check(imag_only, "MIRROR.affine.augment", fn, b, construct=f"{fn.name}: only the mean of the imaginary part is removed",
+                      why=f"`{norm(b)[:60]}` removes the mean of the whole complex signal, real part included: the Hilbert models then decompose centred data whatever `center` says and, "
+                          "with center=False, inverse_transform returns the data without their mean")
+    chk.ok("MIRROR.affine.augment", "xeofs.utils.hilbert_transform", None, construct=f"<offsets of the augmented signal examined: {n}>", nontrivial=False)
+
+
 def _whitener_labels(chk):
     """MIRROR.whitener.labels - un-whitening multiplies by the stored inverse matrix contracted by dimension NAME: the
     inverse must be labelled (mode, feature) and the forward matrix (feature, mode), else the transpose is applied
@@ -161,11 +193,16 @@ def check(chk):
     _modesel(chk)
     _whitener_labels(chk)
     _real_last(chk)
+    _augment_keeps_mean(chk)
+    from .common import absolute_cutoffs
+    absolute_cutoffs(chk, "MIRROR.cutoff.relative", "for data of small magnitude the whitening matrix and its inverse lose directions (or become zero), so un-whitening no longer restores the data in physical units")
     # inverse_transform(scores()) works for every container kind: the unstack variants agree on when the stacked sample
     # name is renamed back (shared with C02)
     from . import c02 as _c02u
     from .c01 import _Relabel as _RLu
     _c02u._unstack_guarded(_RLu(chk, "MIRROR.state.stack", "MIRROR.unstack"), "MIRROR.state.stack.guarded")
+    # transform(inverse_transform(s)) returns s: the reconstruction carries the coordinates in the fitted order
+    _c02u._unstack_order(_RLu(chk, "MIRROR.state.stack", "MIRROR.unstack"), "MIRROR.state.stack.order")
     _affine(chk)
     _stages(chk)
     _scores_identity(chk)
